@@ -62,6 +62,7 @@ func encodeFunction(w *World, fn *ssa.Function, dropped map[string]bool) (e *Enc
 	e.get(st, "ghost:metric", Arr(RefS, BV64))
 	e.get(st, "ghost:metricvec", Arr(RefS, Arr(RefS, BV64)))
 	e.get(st, "ghost:hash#st", Arr(RefS, IntS))
+	e.get(st, "ghost:randfill", Arr(RefS, BV64))
 	e.entry = st
 	e.cur = st
 	if fn.Name() != "init" {
@@ -143,7 +144,9 @@ func encodeFunction(w *World, fn *ssa.Function, dropped map[string]bool) (e *Enc
 	}
 	if ct != nil && len(fr.rets) > 0 {
 		for _, p := range ct.Props {
-			if p == "C17" {
+			if p == "C17" && strings.Contains(strings.ToLower(fn.Name()), "decode") {
+				// generated non-interference obligations are for decoders; send paths list C17 for
+				// their "rebuilt from scratch on every attempt" at-call clauses only
 				e.guard = reach
 				e.cur = stOut
 				e.niObligations(fr, ct, rv, stOut, reach)
